@@ -269,14 +269,15 @@ Section Optimal.
     | AS_Err => False
     end.
   Proof.
-    induction fuel as [| f IH]; intros st I Hgs; simpl; [exact Logic.I |].
-    destruct (as_pq_get (as_frontier st)) as [[[p cur] rest] |] eqn:Hget; [| exact Logic.I].
-    destruct (as_pq_get_some _ _ _ Hget) as [Hin Hrest].
-    pose proof (si_frontier _ _ _ _ _ (fi_base st I) p cur Hin) as Hcur.
-    destruct (Nat.eqb_spec cur goal) as [-> | Hcg].
-    - split; [exact (fi_parent st I) |]. split; [exact (si_nonneg _ _ _ _ _ (fi_base st I)) |].
-      apply (as_lower_bound st p I); auto.
-      intros y Hy. apply (as_pq_get_min _ _ _ Hget y Hy).
+    induction fuel as [| f IH]; intros st I Hgs; simpl;
+      (destruct (as_pq_get (as_frontier st)) as [[[p cur] rest] |] eqn:Hget; [| exact Logic.I]);
+      destruct (as_pq_get_some _ _ _ Hget) as [Hin Hrest];
+      pose proof (si_frontier _ _ _ _ _ (fi_base st I) p cur Hin) as Hcur;
+      (destruct (Nat.eqb_spec cur goal) as [-> | Hcg];
+       [split; [exact (fi_parent st I) |]; split; [exact (si_nonneg _ _ _ _ _ (fi_base st I)) |];
+        apply (as_lower_bound st p I); auto;
+        intros y Hy; apply (as_pq_get_min _ _ _ Hget y Hy) |]).
+    - exact Logic.I.
     - destruct (as_lookup cur (as_cost st)) as [cc |] eqn:Hcc; [| congruence].
       set (st1 := mkAS rest (as_came st) (as_cost st) (as_pop_margin (as_margin st) p rest)).
       assert (I1 : as_st_inv adj start goal false st1).
@@ -328,8 +329,7 @@ Section Optimal.
     intros maxits ns es mg Hrun ws es' Hch Hhd Hlast.
     destruct (Nat.eq_dec goal start) as [Hgs | Hgs].
     - (* start = goal: the returned path is [start] of cost 0 *)
-      subst goal. destruct maxits as [| n]; [discriminate |].
-      rewrite as_path_start_eq_goal in Hrun. injection Hrun as <- _ _.
+      subst goal. rewrite as_path_start_eq_goal in Hrun. injection Hrun as <- _ _.
       simpl. eapply as_chain_cost_nonneg; eassumption.
     - unfold as_path in Hrun. unfold as_forward in Hrun.
       pose proof (as_loop_full maxits (as_init start) as_init_full Hgs) as Hl.
